@@ -497,26 +497,32 @@ def run(index: RepoIndex, rep) -> None:
               'select_kwargs does not keep exactly the accepted parameters: e.g. a reward '
               'configured as 0.0 would silently fall back to its non-zero default',
               'parameters reach the component')
-    # ---- wiring
-    fs = index.func(GW, 'GridWorld.functional_step')
-    w = walk_function(fs.node)
-    sp, ap = [a.arg for a in fs.node.args.args[1:3]]
+    # ---- wiring (normal form: helpers, private methods and transition_with_copy inlined)
+    from ..view import step_wiring
+    sw = step_wiring(index)
+    fs, w, sp, ap = sw['func'], sw['walk'], sw['state'], sw['action']
     ren = {sp: 'S', ap: 'A'}
-    ns = 'transition_with_copy(self._transition_function, S, A, rng=self._rng)'
+    tc = sw['tcalls']
+    rep.check(len(tc) == 1 and not tc[0].loops, 'C12.R5', GW, 'GridWorld.functional_step',
+              fs.node.lineno, '; '.join(src(c.node) for c in tc),
+              f'functional_step runs the transition {len(tc)} times', 'one transition')
+    C = sw['copy']
     rets = [e for e in w.events if e.kind == 'return' and e.value is not None]
-    ok = len(rets) == 1
-    got = src(w.expand(rets[0].value, ren)) if rets else ''
-    want = f'({ns}, self._reward_function(S, A, {ns}), self._termination_function(S, A, {ns}))'
+    ok = len(rets) == 1 and C is not None and sw['copy_def'] == f'fast_copy({sp})'
+    got = src(w.expand(rets[0].value, ren, stop=[C] if C else [])) if rets else ''
+    want = f'({C}, self._reward_function(S, A, {C}), self._termination_function(S, A, {C}))'
     rep.check(ok and got == want, 'C12.R5', GW, 'GridWorld.functional_step', fs.node.lineno,
               got[:300], 'functional_step does not return (next_state, reward(state, action, '
-              'next_state), termination(state, action, next_state)) of one transition',
-              'step wiring')
-    tc = [e for e in w.events if e.kind == 'call' and src(e.node.func) == 'transition_with_copy']
-    rep.check(len(tc) == 1, 'C12.R5', GW, 'GridWorld.functional_step', fs.node.lineno,
-              '; '.join(src(c.node) for c in tc), f'functional_step runs the transition '
-              f'{len(tc)} times', 'one transition')
+              'next_state), termination(state, action, next_state)) of one transition on a '
+              'copy of the state', 'step wiring')
+    if tc:
+        a = tc[0].node.args
+        rep.check(len(a) >= 2 and src(w.expand(a[1])) == ap, 'C12.R5', GW,
+                  'GridWorld.functional_step', tc[0].line, src(tc[0].node),
+                  'the transition does not receive the action of this step', 'same action')
     rc = [e for e in w.events if e.kind == 'call'
           and src(e.node.func) in ('self._reward_function', 'self._termination_function')]
-    rep.check(len(rc) == 2, 'C12.R5', GW, 'GridWorld.functional_step', fs.node.lineno,
+    rep.check(len(rc) == 2 and all(tc and c.order > tc[0].order for c in rc), 'C12.R5', GW,
+              'GridWorld.functional_step', fs.node.lineno,
               '; '.join(src(c.node) for c in rc), 'reward/termination are not each evaluated '
-              'exactly once', 'one evaluation each')
+              'exactly once, after the transition', 'one evaluation each')
